@@ -126,7 +126,7 @@ fn main() {
             // experiment tool: execute the specs of a JSONL file, write records as JSONL
             let text = std::fs::read_to_string(&args[2]).expect("read specs");
             let specs: Vec<spec::Spec> = text.lines().filter(|l| !l.trim().is_empty()).map(|l| spec::Spec::from_json(&serde_json::from_str(l).expect("json")).expect("spec")).collect();
-            let cfg = pool::PoolConfig { workers: 16, chunk: 4, run_budget: Duration::from_secs(60), deadline: None, thorough: args.iter().any(|a| a == "--thorough") };
+            let cfg = pool::PoolConfig { workers: 16, chunk: 4, run_budget: Duration::from_secs(60), deadline: None, thorough: args.iter().any(|a| a == "--thorough"), fresh_per_spec: false };
             let recs = pool::run_collect(&specs, &cfg);
             let mut out = String::new();
             for r in recs.iter() {
